@@ -1,60 +1,11 @@
-/- C07 helper lemmas: block packing. -/
+/- C07 helper lemmas: sizes of var-uints. -/
 import NeoModel.Model.Admission
 namespace NeoModel.Admission
 open NeoModel.Wire (varUintSize)
-
-def sizes (l : List (Nat × Nat)) : Nat := (l.map (·.1)).sum
-def fees (l : List (Nat × Nat)) : Nat := (l.map (·.2)).sum
-
-theorem packLoop_prefix (cfg : PackCfg) : ∀ (txs : List (Nat × Nat)) (s f : Nat), packLoop cfg s f txs <+: txs := by
-  intro txs
-  induction txs with
-  | nil => intro s f; simp [packLoop]
-  | cons t ts ih =>
-    intro s f
-    simp only [packLoop]
-    split
-    · exact List.nil_prefix
-    · exact (List.prefix_cons_inj t).mpr (ih _ _)
-
-theorem packLoop_bounds (cfg : PackCfg) : ∀ (txs : List (Nat × Nat)) (s f : Nat),
-    packLoop cfg s f txs = [] ∨
-      (s + sizes (packLoop cfg s f txs) ≤ cfg.maxBlockSize ∧ f + fees (packLoop cfg s f txs) ≤ cfg.maxBlockSysFee) := by
-  intro txs
-  induction txs with
-  | nil => intro s f; left; rfl
-  | cons t ts ih =>
-    intro s f
-    simp only [packLoop]
-    split
-    · left; rfl
-    · rename_i h
-      right
-      rcases ih (s + t.1) (f + t.2) with h0 | ⟨h1, h2⟩
-      · rw [h0]; simp [sizes, fees]; omega
-      · simp only [sizes, fees, List.map_cons, List.sum_cons] at h1 h2 ⊢
-        omega
 
 theorem varUintSize_mono {a b : Nat} (h : a ≤ b) : varUintSize a ≤ varUintSize b := by
   unfold varUintSize
   repeat' split
   all_goals omega
-
-/-- the transactions `applyPolicy` looks at. -/
-def capped (cfg : PackCfg) (txs : List (Nat × Nat)) : List (Nat × Nat) :=
-  if cfg.maxTx ≠ 0 ∧ txs.length > cfg.maxTx then txs.take cfg.maxTx else txs
-
-theorem applyPolicy_eq (cfg : PackCfg) (txs : List (Nat × Nat)) :
-    applyPolicy cfg txs = packLoop cfg (cfg.overhead + varUintSize (capped cfg txs).length) 0 (capped cfg txs) := rfl
-
-theorem capped_prefix (cfg : PackCfg) (txs : List (Nat × Nat)) : capped cfg txs <+: txs := by
-  unfold capped; split
-  · exact List.take_prefix _ _
-  · exact List.prefix_refl _
-
-theorem capped_length (cfg : PackCfg) (txs : List (Nat × Nat)) (h : cfg.maxTx ≠ 0) : (capped cfg txs).length ≤ cfg.maxTx := by
-  unfold capped; split
-  · simp; omega
-  · rename_i h'; simp only [not_and, Nat.not_lt] at h'; exact h' h
 
 end NeoModel.Admission
